@@ -120,6 +120,11 @@ def evaluate(spec):
             n0 = solos[0]["steps"]
             k = int(spec.pop("schedule_from_end"))
             spec["schedule"] = [[0, max(1, n0 - k)], [1, 1 << 40], [0, 1 << 40]]
+        if spec.get("schedule_at_fraction") is not None:
+            # dense sweep case: pre-empt actor 0 at the (i/Q)-th part of its own steps
+            qi, q = spec.pop("schedule_at_fraction")
+            n0 = solos[0]["steps"]
+            spec["schedule"] = [[0, 1 + (int(qi) * n0) // int(q)], [1, 1 << 40], [0, 1 << 40]]
         # together the actors take exactly the steps they take alone; far more = hang
         spec["max_steps"] = 20 * sum(s["steps"] for s in solos) + 200_000
         result = run_spec(spec)
